@@ -263,24 +263,27 @@ class AbstractDimension:
     def __float__(self):
         return float(self._value)
 
+    # Comparisons use the stored base-unit magnitude itself, not float(self): a magnitude given as an int beyond 2**53
+    # has no exact float image, and comparing images made different quantities equal (with different hashes).
+
     def __eq__(self, other):
-        return float(self) == other
+        return self._value == other
 
     def __hash__(self):
         # hash the base-unit magnitude only: consistent with __eq__ and independent of the display unit
         return hash(self._value)
 
     def __lt__(self, other):
-        return float(self) < other
+        return self._value < other
 
     def __gt__(self, other):
-        return float(self) > other
+        return self._value > other
 
     def __le__(self, other):
-        return float(self) <= other
+        return self._value <= other
 
     def __ge__(self, other):
-        return float(self) >= other
+        return self._value >= other
 
     # def __lshift__(self, other: Unit) -> Self:
     #     return self.convert(other)
